@@ -5,7 +5,8 @@
                           conversion between the rune columns of the syntax tree and the UTF-16
                           characters of LSP, with the lines of the text the tree was parsed from
     lsputil/mapper.go     RuneOffsetToUTF16, UTF16OffsetToRuneOffset
-    hover.go              positionInRange, estimatePayeeRange,
+    hover.go              positionInRange, (*columnMapper).payeeRange (the walk over the header
+                          line is HL/Model/PayeeRange.lean), estimatePayeeRange,
                           getPayeeOrDescription, findElementAtPosition, findTagAtPosition,
                           Hover (the returned Range)
     server.go             analyze / publishDiagnostics: the range construction for
@@ -36,6 +37,7 @@
 import HL.Model.Ast
 import HL.Model.Text
 import HL.Model.Completion
+import HL.Model.PayeeRange
 namespace HL.Ranges
 open HL HL.Ast HL.Text
 
@@ -115,10 +117,20 @@ def runeLenB : Bytes → Nat
 /-- `getPayeeOrDescription`. -/
 def payeeOf (tx : Transaction) : Bytes := if tx.payee ≠ [] then tx.payee else tx.description
 
-/-- `estimatePayeeRange`. -/
+/-- `estimatePayeeRange`: one column after the date, two more after a status mark (the whole
+    answer of the tree as pinned; now the fallback when the mapper has no text for the line). -/
 def estimatePayeeRange (tx : Transaction) (payee : Bytes) : Rng :=
   let startCol := tx.date.range.stop.col + 1 + (if tx.status ≠ .none then 2 else 0)
   ⟨⟨tx.date.range.start.line, startCol, 0⟩, ⟨tx.date.range.start.line, startCol + runeLenB payee, 0⟩⟩
+
+/-- `(*columnMapper).payeeRange` (repo_patches/fix-payee-range.diff): the description is looked
+    up on the header line of the text the tree was parsed from (`lns` = the mapper's lines); the
+    payee is a trimmed prefix of the description, so the range runs from there for the length
+    of the payee.  Without that line, or when the line ends before a description: the estimate. -/
+def payeeRange (lns : List Txt) (tx : Transaction) (payee : Bytes) : Rng :=
+  match HL.PayeeRange.payeeStart lns tx.date.range.start.line tx.date.range.stop.col with
+  | some col => ⟨⟨tx.date.range.start.line, col, 0⟩, ⟨tx.date.range.start.line, col + runeLenB payee, 0⟩⟩
+  | none => estimatePayeeRange tx payee
 
 /-- What a reported range is a range *of* (used by the oracle to pick the lexeme). -/
 inductive Kind where
@@ -136,7 +148,7 @@ structure Hit where
   kind : Kind
   name : Bytes
   rng : Rng
-  derived : Bool := false   -- computed by column arithmetic (payee estimate, tag halves, nameRange)
+  derived : Bool := false   -- computed by column arithmetic (payee range, tag halves, nameRange)
 deriving Repr, DecidableEq, Inhabited, BEq
 
 /-- The two sub-ranges `findTagAtPosition` derives from a tag. -/
@@ -170,23 +182,23 @@ def hoverPosting (c : Cur) (p : Posting) : Option Hit :=
     | none => findTagAtPosition p.tags c
 
 /-- The transaction part of the loop body of `findElementAtPosition`. -/
-def hoverTx (c : Cur) (tx : Transaction) : Option Hit :=
+def hoverTx (lns : List Txt) (c : Cur) (tx : Transaction) : Option Hit :=
   if positionInRange c tx.date.range then some ⟨.date, [], tx.date.range, false⟩
   else
     let payee := payeeOf tx
-    if payee ≠ [] && positionInRange c (estimatePayeeRange tx payee) then
-      some ⟨.payee, payee, estimatePayeeRange tx payee, true⟩
+    if payee ≠ [] && positionInRange c (payeeRange lns tx payee) then
+      some ⟨.payee, payee, payeeRange lns tx payee, true⟩
     else match tx.comments.findSome? (fun cm => findTagAtPosition cm.tags c) with
       | some h => some h
       | none => tx.postings.findSome? (hoverPosting c)
 
-/-- `findElementAtPosition`. -/
-def findElementAtPosition (j : Journal) (c : Cur) : Option Hit :=
-  j.transactions.findSome? (hoverTx c)
+/-- `findElementAtPosition` (`lns`: the mapper of the text the journal was parsed from). -/
+def findElementAtPosition (lns : List Txt) (j : Journal) (c : Cur) : Option Hit :=
+  j.transactions.findSome? (hoverTx lns c)
 
 /-- `Hover`: the `Range` of the response (every hover context produces non-empty content). -/
 def hover (lns : List Txt) (j : Journal) (c : Cur) : Option (Hit × LRange) :=
-  (findElementAtPosition j (runeCur lns c)).map fun h => (h, astRangeToProtocol lns h.rng)
+  (findElementAtPosition lns j (runeCur lns c)).map fun h => (h, astRangeToProtocol lns h.rng)
 
 /-! ### Definition, references, rename -/
 
@@ -221,10 +233,10 @@ def defPosting (c : Cur) (p : Posting) : Option Hit :=
     some ⟨.account, p.account.name, accountNameRange p.account, true⟩
   else (postingCommodities p).findSome? (commodityAt c)
 
-def defTx (c : Cur) (tx : Transaction) : Option Hit :=
+def defTx (lns : List Txt) (c : Cur) (tx : Transaction) : Option Hit :=
   let payee := payeeOf tx
-  if payee ≠ [] && positionInRange c (estimatePayeeRange tx payee) then
-    some ⟨.payee, payee, estimatePayeeRange tx payee, true⟩
+  if payee ≠ [] && positionInRange c (payeeRange lns tx payee) then
+    some ⟨.payee, payee, payeeRange lns tx payee, true⟩
   else tx.postings.findSome? (defPosting c)
 
 /-- The directive loop of `findDefinitionTarget`. -/
@@ -241,14 +253,14 @@ def defDirective (c : Cur) : Directive → Option Hit
   | _ => none
 
 /-- The two loops of `findDefinitionTarget` for a cursor that counts runes. -/
-def findDefinitionTargetR (j : Journal) (c : Cur) : Option Hit :=
-  match j.transactions.findSome? (defTx c) with
+def findDefinitionTargetR (lns : List Txt) (j : Journal) (c : Cur) : Option Hit :=
+  match j.transactions.findSome? (defTx lns c) with
   | some h => some h
   | none => j.directives.findSome? (defDirective c)
 
 /-- `findDefinitionTarget` (kind ∈ payee, account, commodity): `pos = mapper.runePosition(pos)`. -/
 def findDefinitionTarget (lns : List Txt) (j : Journal) (c : Cur) : Option Hit :=
-  findDefinitionTargetR j (runeCur lns c)
+  findDefinitionTargetR lns j (runeCur lns c)
 
 /-- `compareDates a b < 0`. -/
 def dateLt (a b : Date) : Bool :=
@@ -313,7 +325,7 @@ def commodityRefDirective (sym : Bytes) (decl : Bool) : Directive → List Hit
   | _ => []
 
 /-- The locations `findReferences` collects, in collection order (before sortAndDedup). -/
-def referenceHits (j : Journal) (t : Hit) (decl : Bool) : List Hit :=
+def referenceHits (lns : List Txt) (j : Journal) (t : Hit) (decl : Bool) : List Hit :=
   match t.kind with
   | .account =>
     (if decl then j.directives.filterMap (fun d => match d with
@@ -330,7 +342,7 @@ def referenceHits (j : Journal) (t : Hit) (decl : Bool) : List Hit :=
           (⟨.commodity, t.name, cm.range, false⟩ : Hit)
   | .payee =>
     (j.transactions.filter (fun tx => payeeOf tx == t.name)).map fun tx =>
-      ⟨.payee, t.name, estimatePayeeRange tx t.name, true⟩
+      ⟨.payee, t.name, payeeRange lns tx t.name, true⟩
   | _ => []
 
 /-- The order of `sortAndDedup` (one URI): start line, then start character, as `uint32`. -/
@@ -364,7 +376,7 @@ def sortAndDedup {α} (l : List (α × LRange)) : List (α × LRange) :=
 def references (lns : List Txt) (j : Journal) (c : Cur) (decl : Bool) : List (Hit × LRange) :=
   match findDefinitionTarget lns j c with
   | none => []
-  | some t => sortAndDedup ((referenceHits j t decl).map fun h => (h, astRangeToProtocol lns h.rng))
+  | some t => sortAndDedup ((referenceHits lns j t decl).map fun h => (h, astRangeToProtocol lns h.rng))
 
 /-- `PrepareRename`. -/
 def prepareRename (lns : List Txt) (j : Journal) (c : Cur) : Option (Hit × LRange) :=
@@ -382,33 +394,33 @@ def documentSymbols (lns : List Txt) (j : Journal) : List LRange :=
   j.includes.map (fun i => astRangeToProtocol lns i.range)
 
 /-- The payee part of `extractSymbols` (`seen` keeps the first transaction of each payee). -/
-def payeeSymbols : List Bytes → List Transaction → List Hit
+def payeeSymbols (lns : List Txt) : List Bytes → List Transaction → List Hit
   | _, [] => []
   | seen, tx :: rest =>
     let p := payeeOf tx
     if p ≠ [] && !seen.contains p then
-      ⟨.payee, p, estimatePayeeRange tx p, true⟩ :: payeeSymbols (p :: seen) rest
-    else payeeSymbols seen rest
+      ⟨.payee, p, payeeRange lns tx p, true⟩ :: payeeSymbols lns (p :: seen) rest
+    else payeeSymbols lns seen rest
 
 /-- `extractSymbols` with the empty query (fix-workspace-symbol-end.diff: the end of a declared
     name is derived from the name, as in references / rename). -/
-def workspaceSymbolHits (j : Journal) : List Hit :=
+def workspaceSymbolHits (lns : List Txt) (j : Journal) : List Hit :=
   j.directives.filterMap (fun d => match d with
     | .account a _ _ _ _ => some ⟨.account, a.name, accountNameRange a, true⟩
     | .commodity cm _ _ _ _ => some (directiveCommodityHit cm.symbol cm)
     | _ => none) ++
-  payeeSymbols [] j.transactions
+  payeeSymbols lns [] j.transactions
 
 def workspaceSymbols (lns : List Txt) (j : Journal) : List (Hit × LRange) :=
-  (workspaceSymbolHits j).map fun h => (h, astRangeToProtocol lns h.rng)
+  (workspaceSymbolHits lns j).map fun h => (h, astRangeToProtocol lns h.rng)
 
 /-- As pinned: the ranges stored in the tree, which have no End. -/
-def workspaceSymbolHitsPinned (j : Journal) : List Hit :=
+def workspaceSymbolHitsPinned (lns : List Txt) (j : Journal) : List Hit :=
   j.directives.filterMap (fun d => match d with
     | .account a _ _ _ _ => some ⟨.account, a.name, a.range, false⟩
     | .commodity cm _ _ _ _ => some ⟨.commodity, cm.symbol, cm.range, false⟩
     | _ => none) ++
-  payeeSymbols [] j.transactions
+  payeeSymbols lns [] j.transactions
 
 /-- UTF-8 decoding of a Go string of the tree (valid UTF-8: it is a piece of the document). -/
 def decodeUtf8 : Bytes → Txt
